@@ -188,6 +188,11 @@ func c01Ops(prefix []int, mode string) explore.Outcome {
 		r.RegisterTool(mcp.NewTool("args"), func(ctx context.Context, req *mcp.CallToolRequest) (*mcp.CallToolResult, error) {
 			return mcp.NewTextResult("args:" + hx.CanonOf(req.Params.Arguments)), nil
 		})
+		// an answer whose own content uses the member names of the envelope it travels in
+		r.RegisterTool(mcp.NewTool("nested", mcp.WithString("method"), mcp.WithString("id")), func(ctx context.Context, req *mcp.CallToolRequest) (*mcp.CallToolResult, error) {
+			return &mcp.CallToolResult{Content: []mcp.Content{mcp.NewTextContent("nested-ok")},
+				StructuredContent: map[string]interface{}{"method": "tools/call", "id": 7, "jsonrpc": "2.0", "params": map[string]interface{}{"method": "x"}, "result": map[string]interface{}{"id": "a"}, "error": map[string]interface{}{"code": 1, "message": "not an error"}}}, nil
+		})
 		r.RegisterResource(&mcp.Resource{Name: "the-resource", URI: "res://r"}, func(ctx context.Context, req *mcp.ReadResourceRequest) (mcp.ResourceContents, error) {
 			return mcp.TextResourceContents{URI: "res://r", Text: "resource:r"}, nil
 		})
@@ -219,12 +224,17 @@ func c01Ops(prefix []int, mode string) explore.Outcome {
 				if lr, e := cl.ListResources(ctx, &mcp.ListResourcesRequest{}); e != nil || len(lr.Resources) != 1 || lr.Resources[0].Name != "the-resource" {
 					got.Add("ListResources#%d: %v %v", round, lr, e)
 				}
-				if lt, e := cl.ListTools(ctx, &mcp.ListToolsRequest{}); e != nil || len(lt.Tools) != 2 {
+				if lt, e := cl.ListTools(ctx, &mcp.ListToolsRequest{}); e != nil || len(lt.Tools) != 3 {
 					got.Add("ListTools#%d: %v %v", round, lt, e)
 				}
 				if lp, e := cl.ListPrompts(ctx, &mcp.ListPromptsRequest{}); e != nil || len(lp.Prompts) != 1 || lp.Prompts[0].Name != "the-prompt" {
 					got.Add("ListPrompts#%d: %v %v", round, lp, e)
 				}
+			}
+			nt := &mcp.CallToolRequest{}
+			nt.Params.Name = "nested"
+			if o, e := cl.CallTool(ctx, nt); e != nil || TextOf(o) != "nested-ok" {
+				got.Add("CallTool whose structured result has members named method / id / result / error: %q %v", TextOf(o), e)
 			}
 			gp := &mcp.GetPromptRequest{}
 			gp.Params.Name = "the-prompt"
